@@ -242,7 +242,7 @@ CLAIMS = {
               "push_slice, the minimal-push thresholds of Instructions::next and the PUSHDATA operand widths agree; small-integer, "
               "OP_TRUE/OP_FALSE and verify-folding tables; identity byte views of Script/Builder; exhaustive 256-code table that an opcode "
               "classified Ordinary (Legacy context) is in the ordinary-opcode table; for the clause that an address's text form parses back, C06's rules "
-              "(payload layouts, program-length and padding tables of the blech32 reader, prefix matching) are evaluated here as well. Script-number arithmetic and byte-level builder/iterator round trips are not decided."),
+              "(payload layouts, program-length and padding tables of the blech32 reader, prefix matching) are evaluated here as well. read_scriptint refuses only more than four bytes; script-number arithmetic itself and byte-level builder/iterator round trips are not decided."),
         technique="exact truth tables of boolean predicates (all valuations of their atoms) + table agreement between sibling builder/parser",
         design_ref="§4 C16, Appendix D"),
     "C11": dict(
